@@ -49,8 +49,8 @@ for prop in args:
         t0 = time.time()
         # a seed written against one property may only be observable through another
         # property's check (C01-E: shared state that aborts the process only under
-        # concurrency is the subject of C18)
-        check_prop = {"c01/E": "C18", "c16/J": "C18", "c10/J": "C20", "c02/O": "C03"}.get(f"{prop}/{ab}", prop.upper())
+        # concurrency is the subject of C18; C03-T: a loop refused because of the operation budget is the subject of C11; C10-S: the precision of written coordinates is the subject of C20; C14-T: state shared between two decoders is the subject of C18)
+        check_prop = {"c01/E": "C18", "c16/J": "C18", "c10/J": "C20", "c02/O": "C03", "c03/T": "C11", "c10/S": "C20", "c14/T": "C18"}.get(f"{prop}/{ab}", prop.upper())
         rc, out = sh(f"python3 /verif/tools/seedrun.py {sd} {check_prop} quick", cwd="/verif")
         try:
             r = json.loads(out)
